@@ -380,7 +380,7 @@ class Unit:
             data = np.array(u, subok=True)
             unit = getattr(u, "units", None)
             if unit is not None:
-                if self.dimensions is logarithmic:
+                if self.dimensions == logarithmic:
                     raise InvalidUnitOperation(
                         f"Tried to multiply '{self}' and '{unit}'."
                     )
@@ -395,9 +395,9 @@ class Unit:
             if data.shape == ():
                 return _import_cache_singleton.uq(data, units, bypass_validation=True)
             return _import_cache_singleton.ua(data, units, bypass_validation=True)
-        elif self.dimensions is logarithmic and not u.is_dimensionless:
+        elif self.dimensions == logarithmic and not u.is_dimensionless:
             raise InvalidUnitOperation(f"Tried to multiply '{self}' and '{u}'.")
-        elif u.dimensions is logarithmic and not self.is_dimensionless:
+        elif u.dimensions == logarithmic and not self.is_dimensionless:
             raise InvalidUnitOperation(f"Tried to multiply '{self}' and '{u}'.")
 
         base_offset = 0.0
@@ -432,9 +432,9 @@ class Unit:
                     f"Tried to divide a Unit object by '{u}' (type {type(u)}). "
                     "This behavior is undefined."
                 )
-        elif self.dimensions is logarithmic and not u.is_dimensionless:
+        elif self.dimensions == logarithmic and not u.is_dimensionless:
             raise InvalidUnitOperation(f"Tried to divide '{self}' and '{u}'.")
-        elif u.dimensions is logarithmic:
+        elif u.dimensions == logarithmic:
             # also for a dimensionless numerator: 1/dB is dB**-1, which is refused
             raise InvalidUnitOperation(f"Tried to divide '{self}' and '{u}'.")
 
@@ -468,7 +468,7 @@ class Unit:
                 "Failed to cast it to a float."
             )
 
-        if self.dimensions is logarithmic and p != 1:
+        if self.dimensions == logarithmic and p != 1:
             raise InvalidUnitOperation(f"Tried to raise '{self}' to power '{p}'")
 
         if self.base_offset:
